@@ -47,6 +47,8 @@ func runC10(c *core.Ctx) {
 	c.Doc("C10.enqueue", "enqueue is non-blocking, under handlersMutex, only after the handler's own filter matched; every handler is offered every message", 2)
 	ruleSendOwner(c, a, lc, "C10.enqueue")
 	ruleDispatchVisitsAll(c, a, "C10.enqueue")
+	c.Doc("C10.fresh-message", "every message is read into a Message allocated for that read (queues hold pointers)", 1)
+	ruleFreshMessagePerRead(c, a, "C10.fresh-message")
 }
 
 // ruleDispatchVisitsAll: dispatch offers the message to every registered
